@@ -52,6 +52,10 @@ def tz_calls(tree: ast.AST):
         kw = {k.arg for k in n.keywords}
         if name in ALWAYS:
             if name == "fromtimestamp" and (len(n.args) >= 2 or "tz" in kw):
+                tzarg = n.args[1] if len(n.args) >= 2 else next(k.value for k in n.keywords if k.arg == "tz")
+                # an explicit zone object is fine; `x.tzinfo` of a naive timestamp is None, and fromtimestamp(s, None) is process-local time
+                if isinstance(tzarg, ast.Attribute) and tzarg.attr == "tzinfo" or (isinstance(tzarg, ast.Constant) and tzarg.value is None):
+                    out.append((n, "fromtimestamp(s, tz) with the tzinfo of a (possibly naive) timestamp: tz=None converts to the process-local zone"))
                 continue
             if name == "timestamp" and (n.args or n.keywords):
                 continue
